@@ -679,8 +679,13 @@ def replay(ctx, path):
             hit = [dict(r).get(obj["field"].encode()) for r in outs if dict(r).get(b"id", b"").decode() == obj.get("record_id")]
             if not hit or any(h is None or h.decode("latin1") != obj["expected"] for h in hit):
                 ctx.violation(dict(obj, replayed=True, observed_now=[h.decode("latin1") if h else None for h in hit]))
-        elif st != 0 or out.decode("latin1") != obj.get("observed_stdout", out.decode("latin1")):
-            ctx.violation(dict(obj, replayed=True))
+        elif obj.get("changed_fields"):
+            outs = parse_dkvp(out)
+            still = [kv for kv in obj["changed_fields"] if not any((kv[0].encode(), kv[1].encode("latin1")) in r for r in outs)]
+            if st != 0 or still:
+                ctx.violation(dict(obj, replayed=True, still_changed=still))
+        elif st != 0:
+            ctx.violation(dict(obj, replayed=True), found_input=False)
     elif kind == "method-sweep":
         method_sweep(ctx)
     else:
